@@ -170,7 +170,25 @@ def random_jobs(rng, n, sizes, events=True):
                            for r in range(H)]
             job["targets"] = tv
             job["tag"] = "random_odd_target_values"
-        if rng.random() < 0.25 and all(not isinstance(v, str) and float(v) == int(v) for row in job["vals"] for v in row):
+        elif u < 0.55 and explicit:
+            # target values single precision cannot tell apart from their neighbours (0.1 vs float32(0.1),
+            # 2^24+1 vs 2^24, 1e-60 vs 0): target detection must compare in the raster's own precision
+            tv, others = rng.choice([([0.1], [float.fromhex("0x1.99999a0000000p-4"), 0.3, 7]),
+                                     ([16777217], [16777216, 16777218, 5]),
+                                     ([1e-60, 0.3], [0, float.fromhex("0x1.3333340000000p-2"), 2]),
+                                     ([16777216], [16777217, 16777215, 1])])
+            job["vals"] = [[rng.choice(tv) if mask[r][c] else rng.choice(others) for c in range(W)] for r in range(H)]
+            job["targets"] = tv
+            job["tag"] = "random_precision_targets"
+        if metric == "T" and rng.random() < 0.35:
+            # very small cells (1e-5 .. 1e-6 degrees): a numerically weaker great-circle formula shows here
+            job["scale"] = rng.choice([1e-5, 2e-6])
+            job["xoff"] = float(rng.randrange(-170, 170))
+            job["yoff"] = float(rng.randrange(-80, 80))
+            job["xs"] = list(range(W))
+            job["ys"] = list(range(H))[::-1]
+            job["tag"] = job["tag"] + "_tinycells"
+        if rng.random() < 0.25 and all(not isinstance(v, str) and float(v) == int(v) and abs(v) < 1e6 for row in job["vals"] for v in row):
             job["dtype"] = rng.choice(["int32", "int64", "uint8", "int16"]) if all(
                 v >= 0 for row in job["vals"] for v in row) else rng.choice(["int32", "int64"])
         if rng.random() < 0.2:
